@@ -75,6 +75,7 @@ def run(ctx):
                 "= the no-data value, random beyond), field = default / float64 / float32 / int32 / int64 grids with "
                 "NaN and numeric no-data values, the same grid objects taken through one or two successive calls "
                 "(each call checked; cell values of both inputs compared with the generated values after every call); "
+                "boustrophedon grids whose single flow path visits every cell (longest walk under the default limit); "
                 "non-trivial = distinct (shape class, field kind, acyclic, cap class, max upstream count class, "
                 "direction storage, zero/non-zero no-data, no-data cells 0/1/2+, field storage, call number)")
     ctx.trusted = cm.STD_TRUST
@@ -289,6 +290,35 @@ def run(ctx):
             field = field_of(kind, n)
         do(nrows, ncols, fd, kind, field, maxcells, rng.choice(fnds), fd_dtype=dt, fd_nodata=ndv, field_dtype=ft,
            default_field=False, calls=calls)
+
+    # ---- longest possible flow path: every cell of the grid on one meandering path (row-wise or column-wise
+    #      boustrophedon, either end as the outlet), so that the walk from the head takes nrows*ncols - 1 steps -
+    #      the most an acyclic grid can ask of the default cell limit
+    step = {v: k for k, v in ESRI.items()}
+    for it in range(ctx.scale(24, 120)):
+        nrows, ncols = rng.randint(1, S), rng.randint(1, S)
+        n = nrows * ncols
+        if rng.random() < 0.5:
+            order = [(r, k if r % 2 == 0 else ncols - 1 - k) for r in range(nrows) for k in range(ncols)]
+        else:
+            order = [(r if k % 2 == 0 else nrows - 1 - r, k) for k in range(ncols) for r in range(nrows)]
+        if rng.random() < 0.5:
+            order.reverse()
+        dt, ndvs = rng.choice(FD_STORAGE)
+        ndv = rng.choice(ndvs)
+        fd = [0] * n
+        for (r, k), (r2, k2) in zip(order, order[1:]):
+            fd[r * ncols + k] = step[(r2 - r, k2 - k)]
+        r, k = order[-1]
+        fd[r * ncols + k] = rng.choice([0, 3, ndv] + [c for c in CODES if not (
+            0 <= r + ESRI[c][0] < nrows and 0 <= k + ESRI[c][1] < ncols)])
+        if rng.random() < 0.4:
+            do(nrows, ncols, fd, "unit", [1.0] * n, -1, float(ndv), fd_dtype=dt, fd_nodata=ndv, default_field=True)
+        else:
+            ft, fnds = rng.choice(FIELD_STORAGE[:2])
+            kind = rng.choice(["uniform", "dyadic", "signed", "random"])
+            do(nrows, ncols, fd, kind, field_of(kind, n), -1, rng.choice(fnds), fd_dtype=dt, fd_nodata=ndv,
+               field_dtype=ft, default_field=False)
 
     bad, nshards, failed = cm.run_case_files(PID, HEADER, "acase", "a_ok", terms, shard=600, max_bytes=300000)
     ctx.notes["correspondence_cases"] = len(terms)
